@@ -89,6 +89,18 @@ def gen_ops(rng, depth, budget, fid, npool=4):
     return ops
 
 
+_PRISTINE = []
+
+
+def _pristine_defaults():
+    """DEFAULT_STYLES as it was when this process first looked (before any history ran)."""
+    if not _PRISTINE:
+        from rich.default_styles import DEFAULT_STYLES
+
+        _PRISTINE.append(dict(DEFAULT_STYLES))
+    return _PRISTINE[0]
+
+
 class C20:
     prop = PROP
     level = "exploration"
@@ -178,6 +190,7 @@ class Prog:
         self.file = SimFile(sim, tty=True)
         bt = case["base_theme"]
         self.Style, self.Theme = Style, Theme
+        _pristine_defaults()
         self.defaults = dict(DEFAULT_STYLES)
         base = self._map(bt) if bt else dict(self.defaults)
         self.console = Console(file=self.file, width=40, height=10, force_terminal=True, color_system="truecolor", _environ={},
@@ -395,6 +408,40 @@ class Prog:
             if back.styles != theme.styles:
                 diff = [k for k in theme.styles if back.styles.get(k) != theme.styles[k]][:3]
                 self._v("config", "config-roundtrip", "Theme.config does not read back equal: %r" % [(k, str(theme.styles[k]), str(back.styles.get(k))) for k in diff])
+            # the same text read as an inheriting theme: the defaults plus the entries
+            stream.seek(0)
+            inh = self.Theme.from_file(stream)
+            exp = dict(self.defaults)
+            exp.update(theme.styles)
+            if inh.styles != exp:
+                diff = [k for k in set(exp) | set(inh.styles) if inh.styles.get(k) != exp.get(k)][:3]
+                self._v("config", "config-roundtrip", "Theme.config read back with inherit=True differs from defaults + entries at %r" % (diff,))
+        # nothing that was pushed, popped or read from a config may have leaked into the global
+        # defaults: a fresh console over a fresh theme resolves every name as at the start
+        from rich.console import Console
+        from rich.default_styles import DEFAULT_STYLES
+
+        if dict(DEFAULT_STYLES) != self.defaults or DEFAULT_STYLES != _pristine_defaults():
+            diff = [k for k in set(DEFAULT_STYLES) | set(self.defaults) if DEFAULT_STYLES.get(k) != self.defaults.get(k)][:4]
+            self._v("isolation", "defaults-mutated", "rich.default_styles.DEFAULT_STYLES changed during the history: %r" % (diff,))
+        fresh = Console(file=io.StringIO(), theme=self.Theme({"x.y": "bold"}), _environ={})
+        base = dict(_pristine_defaults())
+        base["x.y"] = self.Style.parse("bold")
+        saved, self.layers = self.layers, [(base, True)]
+        try:
+            from rich import errors
+
+            for name in NAMES:
+                exp = self.model_lookup(name, None)
+                try:
+                    got = ("ok", fresh.get_style(name))
+                except errors.MissingStyle:
+                    got = ("err", "MissingStyle")
+                if got != exp:
+                    self._v("isolation", "fresh-console-differs", "a fresh Console(theme=Theme({'x.y': 'bold'})) resolves %r to %r, expected %r: something leaked out of the history" % (name, got, exp))
+                    break
+        finally:
+            self.layers = saved
 
     def finish(self):
         v = list(self.viol)
